@@ -440,9 +440,14 @@ def gen_script(rng, nstmts):
         if rng.random() < 0.6:
             s.append(['A*', 'ok'])
         r = rng.random()
-        if r < 0.35:
-            s += [['X'], ['H2']]
-        s.append(['EH*'])
+        if r < 0.3:
+            s += [['X'], ['H2'], ['EH*']]
+        elif r < 0.75:
+            # ... and the newer statement is executed after the old generator was consumed: iterating a plan must not
+            # disturb what the planner holds for the statement prepared since
+            s += [['EH*'], ['I'], ['X'], ['E*']]
+        else:
+            s.append(['EH*'])
     return s
 
 
@@ -769,9 +774,9 @@ class Session:
             self.obs['execution_consumed_late'] += 1
             self._judge_execution(complete=True, vals=vals, what='execute (generator iterated after the planner prepared the next statement)')
             self.cur = cur
-            # consuming the old generator re-plans on this planner (from_query): what the planner does for the newer statement
-            # afterwards is the unjudged territory of two statements sharing one planner
-            self.state = 'failed'
+            self.steps, self.exec_err = [], None
+            # (the newer statement, if prepared and not yet executed, stays prepared: its parameter report and execution are
+            # judged as usual; a newer statement whose execution was dropped un-iterated (H2) is finished)
             self.log.append('EH*')
             return True
         if k in ('E', 'E*'):
